@@ -893,6 +893,9 @@ func instantiate(p *Program, ts *TemplateSet, flags map[string]bool) (*TmplInsta
 	}
 	ti.Pkg = pkg
 	for _, f := range ti.AllFiles {
+		desugarFile(ti.Info, pkg, f)
+	}
+	for _, f := range ti.AllFiles {
 		for _, d := range f.Decls {
 			if _, ok := d.(*ast.FuncDecl); ok {
 				ti.NumFuncs++
